@@ -58,6 +58,10 @@ def producers(env):
     P.append(dict(text='{1,2}<1', code=None, kind='operator-python'))
     P.append(dict(text='{1,2}>=2', code=None, kind='operator-python'))
     P.append(dict(text='COMPLEX(1,2)<1', code=None, kind='operator-python'))
+    # an operator given operands it cannot combine (a complex number with a date): an error VALUE, whatever its code
+    P.append(dict(text='(DATE(2020,1,1)+COMPLEX(1,2))', code=None, kind='operator-python'))
+    P.append(dict(text='(COMPLEX(1,2)*"1/2/2020")', code=None, kind='operator-python'))
+    P.append(dict(text='(DATE(2020,1,1)-COMPLEX(1,2))', code=None, kind='operator-python'))
     for i, c in enumerate(CODES8):
         P.append(dict(text='FRAISE(%d)' % i, code=c, kind='custom-raises'))
         P.append(dict(text='FRET(%d)' % i, code=c, kind='custom-returns'))
@@ -83,7 +87,7 @@ def producers(env):
     return P
 
 
-NPRODUCERS = 98
+NPRODUCERS = 101
 
 
 LITERALS = ['#NULL!', '#DIV/0!', '#VALUE!', '#REF!', '#NAME?', '#NUM!', '#N/A', '#ERROR!', '#GETTING_DATA']
